@@ -153,4 +153,72 @@ Proof.
     rewrite (app_assoc P (seg T f t)). rewrite skipn_exact by (rewrite app_length; lia). reflexivity.
 Qed.
 
+
+(* the node step lies before the replaced range: pos < f *)
+Theorem node_step_before_replace_commute f t sl structure st pos doc da db :
+  V doc -> empty_match_valid_end s -> OpenS sl -> f <= t -> pos < f -> is_node_step st = Some pos ->
+  apply s (SReplace f t sl structure) doc = ROk da ->
+  apply s st doc = ROk db ->
+  step_map st (get_map s (SReplace f t sl structure)) = Some st /\
+  step_map (SReplace f t sl structure) (get_map s st) = Some (SReplace f t sl false) /\
+  forall dab dba,
+    apply s st da = ROk dab -> apply s (SReplace f t sl false) db = ROk dba ->
+    DT dab = DT dba.
+Proof.
+  intros Hd Hem Ho Hft Hpf Hst Ha Hb.
+  pose proof (OpenOK_Shape s _ _ _ Ho) as Hs. pose proof (IT_length s sl Hs) as Hl.
+  assert (Hmap : get_map s st = empty_map) by (destruct st; try discriminate; reflexivity).
+  split; [|split].
+  - destruct st; try discriminate; cbn [is_node_step] in Hst; inversion Hst; subst;
+      cbn [step_map get_map]; rewrite map_result_single_before by lia;
+      cbn [deleted_after mr_del mr_pos Z.land Z.lor Z.ltb Z.compare]; rewrite Nat2Z.id; reflexivity.
+  - rewrite Hmap. cbn [step_map]. unfold map_result, empty_map. cbn [ranges inverted map_go mr_pos mr_del].
+    unfold deleted. cbn [mr_del Z.land Z.ltb Z.compare andb]. rewrite !Z.add_0_r.
+    assert (E : (Z.max (Z.of_nat f) (Z.of_nat t)) = Z.of_nat t) by lia. rewrite E, !Nat2Z.id. reflexivity.
+  - intros dab dba Hab Hba.
+    destruct (replace_step_splice s _ _ _ _ _ _ Hd Hs Ha) as (Hf & Ht & Ea).
+    destruct (node_step_result st pos doc db Hd Hst Hb) as (ty & a & m & cs & a' & m' & Hu & Hn & Eb).
+    pose proof (apply_replace_valid s _ _ _ _ _ _ Hd Ho Ha) as Hda.
+    assert (Hdb : V db).
+    { apply (node_step_valid s st pos doc db Hem Hd); [|exact Hb].
+      destruct st; try discriminate; cbn [is_node_step] in Hst; inversion Hst; reflexivity. }
+    destruct (node_step_result st pos da dab Hda Hst Hab) as (ty2 & a2 & m2 & cs2 & a2' & m2' & Hu2 & Hn2 & Eab).
+    destruct (replace_step_splice s _ _ _ _ _ _ Hdb Hs Hba) as (_ & _ & Eba).
+    set (T := DT doc) in *. set (I := IT sl) in *.
+    set (A := firstn pos T). set (y := tnorm (head_tok s ty a m)) in *.
+    assert (ET : T = A ++ [y] ++ skipn (S pos) T) by (apply nth_split; exact Hn).
+    assert (LA : length A = pos) by (unfold A; rewrite firstn_length; assert (pos < length T) by (apply nth_error_Some; rewrite Hn; discriminate); lia).
+    (* cut the rest at f and t *)
+    set (R := skipn (S pos) T) in *.
+    assert (LR : length R = length T - S pos) by (unfold R; apply skipn_length).
+    set (B := firstn (f - S pos) R). set (S0 := skipn (t - S pos) R).
+    assert (LB : length B = f - S pos) by (unfold B; rewrite firstn_length; lia).
+    assert (EP : firstn f T = A ++ [y] ++ B).
+    { rewrite ET at 1. replace (A ++ [y] ++ R) with ((A ++ [y]) ++ R) by (rewrite <- app_assoc; reflexivity).
+      rewrite firstn_app_r by (rewrite app_length; cbn [length]; lia). rewrite app_length. cbn [length].
+      rewrite <- app_assoc. unfold B. repeat f_equal. lia. }
+    assert (ES : skipn t T = S0).
+    { rewrite ET at 1. replace (A ++ [y] ++ R) with ((A ++ [y]) ++ R) by (rewrite <- app_assoc; reflexivity).
+      rewrite skipn_app_r by (rewrite app_length; cbn [length]; lia). rewrite app_length. cbn [length].
+      unfold S0. f_equal. lia. }
+    assert (Ea' : DT da = A ++ [y] ++ B ++ I ++ S0) by (rewrite Ea, EP, ES, <- !app_assoc; reflexivity).
+    assert (Hsame : tnorm (head_tok s ty2 a2 m2) = y).
+    { rewrite Ea' in Hn2. rewrite nth_error_app2 in Hn2 by lia. rewrite LA, Nat.sub_diag in Hn2. cbn in Hn2. inversion Hn2. reflexivity. }
+    unfold y in Hsame. destruct (head_tok_norm_inj s _ _ _ _ _ _ Hsame) as (-> & _ & _).
+    assert (Hx : tnorm (head_tok s ty a2' m2') = tnorm (head_tok s ty a' m')).
+    { eapply (node_update_norm st pos ty a2 m2 cs2 a2' m2' a m cs a' m'); eauto. }
+    set (x := tnorm (head_tok s ty a' m')) in *.
+    assert (Eab' : DT dab = A ++ [x] ++ B ++ I ++ S0).
+    { rewrite Eab, Hx, Ea'. rewrite firstn_exact by lia.
+      replace (A ++ [y] ++ B ++ I ++ S0) with ((A ++ [y]) ++ B ++ I ++ S0) by (rewrite <- app_assoc; reflexivity).
+      rewrite skipn_exact by (rewrite app_length; cbn [length]; lia). reflexivity. }
+    assert (Eb' : DT db = A ++ [x] ++ R) by (rewrite Eb; reflexivity).
+    rewrite Eab', Eba, Eb'.
+    replace (A ++ [x] ++ R) with ((A ++ [x]) ++ R) by (rewrite <- app_assoc; reflexivity).
+    rewrite firstn_app_r by (rewrite app_length; cbn [length]; lia).
+    rewrite skipn_app_r by (rewrite app_length; cbn [length]; lia).
+    rewrite app_length. cbn [length]. rewrite <- !app_assoc. cbn [app].
+    rewrite LA. replace (f - (pos + 1)) with (f - S pos) by lia. replace (t - (pos + 1)) with (t - S pos) by lia. reflexivity.
+Qed.
+
 End WithSchema.
